@@ -584,6 +584,19 @@ func (r *dtRun) randRunes(n int) string {
 	return string(rs)
 }
 
+// runesIn: n characters drawn from lo..hi (surrogates left out); the last one is not NUL
+func (r *dtRun) runesIn(n, lo, hi int) string {
+	rs := make([]rune, n)
+	for i := range rs {
+		c := lo + r.rng.Intn(hi-lo+1)
+		if c >= 0xd800 && c <= 0xdfff {
+			c = 0xe000
+		}
+		rs[i] = rune(c)
+	}
+	return string(rs)
+}
+
 func (r *dtRun) randDigits(n int) string {
 	b := make([]byte, n)
 	for i := range b {
@@ -810,12 +823,18 @@ func (r *dtRun) all() {
 	for prec := 1; prec <= 38; prec++ {
 		for scale := 0; scale <= prec; scale++ {
 			reps := r.count(1, 6)
-			if !r.thorough && (prec*39+scale)%3 != int(r.rng.Int31n(3)) {
+			// every pair at the corners of the domain (scale 0, scale = precision, precision 38), a third of the rest
+			corner := scale == 0 || scale == prec || prec == 38 || prec == 1
+			if !r.thorough && !corner && (prec*39+scale)%3 != int(r.rng.Int31n(3)) {
 				continue
 			}
 			for k := 0; k < reps; k++ {
 				d := r.mkDecimal(prec, scale)
 				if d == nil {
+					// a decimal of a valid precision / scale that cannot even be made is a value that does not survive
+					r.scn("rt-DECN")
+					r.tr.Emit(Ev{"ev": "RT", "t": "DECN", "n": 33, "v": map[string]interface{}{"k": "dec", "neg": false, "dig": []int{}, "prec": prec, "scale": scale, "gt": "*asetypes.Decimal"},
+						"b": []int{}, "v2": map[string]interface{}{"k": "other", "s": "none"}, "err": fmt.Sprintf("NewDecimalString(%d, %d) failed", prec, scale), "stable": true})
 					continue
 				}
 				t := []asetypes.DataType{asetypes.DECN, asetypes.NUMN}[r.rng.Intn(2)]
@@ -975,6 +994,16 @@ func (r *dtRun) all() {
 		r.rt(asetypes.LONGCHAR, r.randRunes(1+r.rng.Intn(400)), 0x7fffffff)
 		r.rt(asetypes.TEXT, r.randRunes(1+r.rng.Intn(400)), 0x7fffffff)
 		u := r.randRunes(1 + r.rng.Intn(40))
+		switch i % 5 { // texts drawn from one range only: ASCII, Latin-1 (every unit has a zero high byte), BMP, outside the BMP
+		case 1:
+			u = r.runesIn(1+r.rng.Intn(30), 0x20, 0x7e)
+		case 2:
+			u = r.runesIn(1+r.rng.Intn(30), 0x20, 0xff)
+		case 3:
+			u = r.runesIn(1+r.rng.Intn(12), 0x80, 0xff)
+		case 4:
+			u = r.runesIn(1+r.rng.Intn(12), 0x10000, 0x10ffff)
+		}
 		r.rt(asetypes.UNITEXT, u, 0x7fffffff)
 		if i%3 == 0 {
 			r.pkg(asetypes.BINARY, bs, 255, 0, 0)
@@ -994,7 +1023,14 @@ func (r *dtRun) all() {
 		r.dec(asetypes.VARCHAR, []byte(str))
 		r.dec(asetypes.LONGCHAR, []byte(str))
 		r.dec(asetypes.TEXT, []byte(str))
-		u16 := utf16.Encode([]rune(r.randRunes(1 + r.rng.Intn(40))))
+		us := r.randRunes(1 + r.rng.Intn(40))
+		switch i % 4 {
+		case 1:
+			us = r.runesIn(1+r.rng.Intn(30), 0x20, 0xff)
+		case 2:
+			us = r.runesIn(1+r.rng.Intn(12), 0x80, 0xff)
+		}
+		u16 := utf16.Encode([]rune(us))
 		ub := make([]byte, 0, 2*len(u16))
 		for _, c := range u16 {
 			ub = le.AppendUint16(ub, c)
